@@ -16,7 +16,7 @@ Theorem C12_source_facts :
   C12Facts.s3_hash_seek0 = true /\ C12Facts.s3_hash_before_retries = true /\ C12Facts.s3_hook_raises_status = true /\
   C12Facts.b2_backoff_handlers = true /\ C12Facts.b2_on_backoff_reauth_unless_429 = true /\ C12Facts.b2_hook_401_auth = true /\
   C12Facts.b2_upload_gets_fresh_url_each_try = true /\ C12Facts.b2_upload_url_not_cached = true /\
-  C12Facts.requires_auth_bounded = true /\ C12Facts.wrappers_forward = true.
+  C12Facts.requires_auth_bounded = true /\ C12Facts.requires_auth_waits_for_refresh = true /\ C12Facts.wrappers_forward = true.
 Proof. exact source_facts. Qed.
 Print Assumptions C12_source_facts.
 
